@@ -57,7 +57,7 @@ def run(ctx):
     from pyamg.aggregation import fit_candidates
     rng = ctx.sub('fc')
     cases, meta = [], []
-    for it in range(60 if not ctx.thorough else 500):
+    for it in range(150 if not ctx.thorough else 500):
         n = rng.choice([4, 5, 7, 9, 12])
         K1 = rng.choice([1, 1, 2, 3])
         K2 = rng.choice([1, 2, 3])
